@@ -2,3 +2,10 @@
 import Verif.Model.KV
 import Verif.Lemmas.KV
 import Verif.Props.C17
+import Verif.Model.Seed
+import Verif.Lemmas.Seed
+import Verif.Lemmas.SeedWordlist
+import Verif.Props.C20
+import Verif.Model.Chain
+import Verif.Lemmas.Chain
+import Verif.Props.C01
